@@ -666,16 +666,17 @@ pub async fn drive(ctl: &Ctl, prefix: &[usize]) -> RunTrace {
                         Some((i, false)) if i == id && ctl.first_external_job().is_none() => {}
                         _ => break,
                     }
-                    if t0.elapsed() > Duration::from_secs(20) {
+                    if t0.elapsed() > Duration::from_secs(120) {
+                        // the real blocking pool did not answer: a machinery matter (starved
+                        // machine, or a section's owner waiting for a task the controller does
+                        // not run inside sections), never a verdict about pearl
                         return RunTrace {
                             steps_log,
                             decisions,
-                            end: EndState::Deadlock(
-                                ctl.unfinished()
-                                    .into_iter()
-                                    .map(|(i, n, s)| (i, n.to_string(), format!("external wait: {s}")))
-                                    .collect(),
-                            ),
+                            end: EndState::Divergence(format!(
+                                "external section: no answer from the blocking pool for 120 s; unfinished: {:?}",
+                                ctl.unfinished().into_iter().map(|(i, n, s)| (i, n.to_string(), s)).collect::<Vec<_>>()
+                            )),
                             steps,
                         };
                     }
